@@ -266,12 +266,46 @@ def one_history(res, rng, ctx):
                           'announced', case)
 
 
+def concurrent_front_ends(res, rng, ctx):
+    """Two front-end objects, each on its own dump, their callstack streams requested up front and advanced
+    alternately: every object attributes frames with the images of the dump IT reads."""
+    import itertools
+    from pykdebugparser.pykdebugparser import PyKdebugParser
+    hist = []
+    for _ in range(2):
+        merged, samples = gen_history(rng, ctx)
+        events = H.materialize([(tid, a) for tid, a, _ in merged])
+        hist.append((merged, samples, events, wire.v2_file(gen.threadmap_for(events), 8, gen.events_to_records(events))))
+    case = {'files': [h[3] for h in hist]}
+    parsers = [PyKdebugParser(), PyKdebugParser()]
+    got = [[], []]
+    try:
+        gens = [p.callstacks(io.BytesIO(h[3])) for p, h in zip(parsers, hist)]
+        if rng.random() < 0.5:
+            for row in itertools.zip_longest(*gens):
+                for i, c in enumerate(row):
+                    if c is not None:
+                        got[i].append(c)
+        else:
+            got = [list(g) for g in gens]       # requested up front, consumed one after the other
+    except Exception as x:
+        res.violation(f'c15-front-raises-{core.exc_name(x)}', f'two front-end objects at the same time: {x!r}', case)
+        return
+    for i, (merged, samples, events, _) in enumerate(hist):
+        if not check_callstacks(res, got[i], merged, events, samples, f'two PyKdebugParser objects with overlapping callstack '
+                                f'streams, object {i}', case):
+            return
+    res.count('concurrent_front_end_pairs')
+
+
 def run(ctx):
     install_invariant()
     res = core.Result()
     rng = ctx.rng
-    for _ in range(ctx.pick(300, 25000)):
+    for i in range(ctx.pick(300, 25000)):
         one_history(res, rng, ctx)
+        if i % 6 == 0:
+            concurrent_front_ends(res, rng, ctx)
     res.count('invariant_evaluations', Inv.evaluations)
     for f in Inv.failures:
         res.violation('c15-list-invariant', f'class invariant on CallstacksParser: {f}')
@@ -290,6 +324,7 @@ def run(ctx):
     res.require('permutations_compared', 3)
     res.require('histories_with_non_stack_samples', 1)
     res.require('front_end_runs', 10)
+    res.require('concurrent_front_end_pairs', 5)
     if monitors.HAVE_ICONTRACT:
         res.require('invariant_evaluations', 1)
     return res
